@@ -1846,7 +1846,10 @@ func (f *formatter) writeStartMaybeCompact(node ast.Node, forceCompact bool) {
 			// a newline.
 			f.P("")
 		}
-	} else if !compact && nodeNewlineCount > 1 {
+	} else if !compact && nodeNewlineCount > 1 && f.lastWritten != 0 {
+		// Nothing has been written yet: blank lines at the very start of the
+		// output are never wanted (and would not survive a second format).
+		//
 		// If the previous node is an open brace, this is the first element
 		// in the body of a composite type, so we don't want to write a
 		// newline. This makes it so that trailing newlines are removed.
@@ -2061,8 +2064,9 @@ func (f *formatter) writeMultilineCommentsMaybeCompact(comments ast.Comments, fo
 	compact := forceCompact || isOpenBrace(f.previousNode)
 	for i := range comments.Len() {
 		comment := comments.Index(i)
-		if !compact && newlineCount(comment.LeadingWhitespace()) > 1 {
-			// Newlines between blocks of comments should be preserved.
+		if !compact && newlineCount(comment.LeadingWhitespace()) > 1 && f.lastWritten != 0 {
+			// Newlines between blocks of comments should be preserved
+			// (but the output never starts with a blank line).
 			//
 			// For example,
 			//
